@@ -186,7 +186,11 @@ class Gen:
                 d["commissioning"] = False
         else:
             d["commissioning"] = False; d["file_node_id"] = None; d["baudrate_kbit"] = None
-        if self.written: d["extra_sections"] = r.random() < 0.5
+        if self.written:
+            d["extra_sections"] = r.random() < 0.5
+            # section order is free in an INI file: fixed sections after the objects, or everything in random order
+            d["tail"] = [r.random() < 0.3, r.random() < 0.45, r.random() < 0.3]
+            d["shuffle"] = r.randrange(1 << 30) if r.random() < 0.35 else None
         return d
 
 
